@@ -38,6 +38,9 @@ EosClauses(c, e) ==
     [] row.eos = "cjisentrope" ->            \* products of a CJ detonation: c^2 = gamma p / rho on the isentrope p/p_cj = (rho/rho_cj)^gamma
             Chk("EOS.c2=g.p/rho", Same(Sq(e.v.c), Div(Mul(c.par.gamma, e.v.p), e.v.rho), 2 * t))
        \cup Chk("EOS.cj-isentrope", Same(Div(e.v.p, c.par.pcj), PowQ(Div(e.v.rho, c.par.rhocj), c.par.gammaQ), 4 * t))
+    [] row.eos = "rmtv"     ->               \* p = (gamma-1) rho e and (gamma-1) e = Gamma T ; nothing to say in the cold gas (e = T = 0)
+            IF e.reg = "cold" THEN {}
+            ELSE EosGamma(c.par, e.v, t) \cup Chk("EOS.(g-1)e=Gamma.T", Same(Mul(c.par.gm1, e.v.e), Mul(c.par.bigamma, e.v.T), t))
     [] row.eos = "gamma"    -> EosGamma(c.par, e.v, t)
     [] row.eos = "gamma2"   -> EosGamma(ParSide(c, e.reg), e.v, t)
     [] row.eos = "cog"      -> EosCog(c.par, e.v, t)
@@ -53,9 +56,10 @@ PdeClauses(c, e) ==
 
 (* undisturbed state ahead of a blast wave: (rho0 r^-omega, 0, 0), evaluated by TLC from the user's parameters *)
 AmbientClauses(c, e) ==
-  IF Has(e, "ambient") /\ "INT" \in Groups(c)
-  THEN  Chk("AHEAD.rho", Same(e.v.rho, Mul(c.par.rho0, PowQ(e.x, QNeg(c.par.omega))), 5))
-   \cup Chk("AHEAD.u", e.v.u.s = 0) \cup Chk("AHEAD.p", e.v.p.s = 0)
+  IF Has(e, "ambient") /\ ("INT" \in Groups(c) \/ (c.fam = "RMTV" /\ "RH" \in Groups(c)))     \* RMTV: the cold gas g0 r^kappa ahead of the heat front
+  THEN  LET pre == IF c.fam = "RMTV" THEN "RH.ahead." ELSE "AHEAD." IN
+        Chk(pre \o "rho", Same(e.v.rho, Mul(c.par.rho0, PowQ(e.x, QNeg(c.par.omega))), 5))
+   \cup Chk(pre \o "u", e.v.u.s = 0) \cup Chk(pre \o "p", e.v.p.s = 0)
   ELSE {}
 
 (* field laws as term vectors (C13 burn times, C14 heat, C15 Blake, C18 Su-Olson): `eq` entries must balance, *)
@@ -91,6 +95,9 @@ JumpClauses(c, j) ==
   ELSE
        (IF "RH" \in g
         THEN  (IF j.kind = "slip" THEN {}
+               ELSE IF j.kind = "isoshock"        \* heat-conducting gas: the temperature is continuous, the heat flux is not (no energy balance without it)
+               THEN  Chk("RH.mass", Balanced(j.bal.mass, t)) \cup Chk("RH.mom",  Balanced(j.bal.mom, t))
+                \cup Chk("RH.isothermal", Balanced(j.cont.T, t)) \cup Chk("RH.shock-position", Balanced(j.cont.pos, t))
                ELSE  Chk("RH.mass", Balanced(j.bal.mass, t))
                 \cup Chk("RH.mom",  Balanced(j.bal.mom, t))
                 \cup Chk("RH.ener", Balanced(j.bal.ener, t)))
@@ -106,7 +113,7 @@ JumpClauses(c, j) ==
                 \cup Chk("RH.contact.speed", Balanced(j.cont.s, t))
                ELSE {})
         ELSE {})
-  \cup (IF "ADM" \in g /\ j.kind = "shock" THEN Chk("ADM.compressive", Compressive(j)) ELSE {})
+  \cup (IF "ADM" \in g /\ j.kind \in {"shock", "isoshock"} THEN Chk("ADM.compressive", Compressive(j)) ELSE {})
 
 (* monotone variation inside a rarefaction fan (action property on consecutive points) *)
 Dir(a, b) == IF SLLt(a, b) THEN 1 ELSE IF SLLt(b, a) THEN -1 ELSE 0
